@@ -47,6 +47,10 @@ func genConc(t *rapid.T) ConcCase {
 }
 
 func checkConc(env *fw.Env, c ConcCase) *fw.Failure {
+	if c.Writers == 0 || c.Page == 0 {
+		env.Rec.Discard("replay-file-of-another-test") // e.g. a TestC15 case
+		return nil
+	}
 	ds, closeFn, err := newDatastore(c.Backend)
 	if err != nil {
 		return fw.Failf("harness/datastore", "%v", err)
